@@ -114,6 +114,9 @@ DataMix ==
      Raw("pack >H 258", EmitInt(2, FALSE, FromInt(258), "u", TRUE)),
      Raw("pack <q -2", EmitInt(8, TRUE, FromInt(2), "s", FALSE)),
      Raw("pack <l 9", EmitInt(4, FALSE, FromInt(9), "s", FALSE)),
+     \* no byte-order prefix = the host's native sizes and alignment (assumed: an LP64 little-endian host, as in this sandbox)
+     Raw("pack L 5", EmitInt(8, FALSE, FromInt(5), "u", FALSE)),
+     Raw("pack xxI 7", <<0, 0, 0, 0>> \o EmitInt(4, FALSE, FromInt(7), "u", FALSE)),
      Raw("string ab", StringBytes(<<97, 98>>)),
      Raw("string h\\x41\\n", StringBytes(<<104, 92, 120, 52, 49, 92, 110>>)),
      Raw("string " \o "\"q\" #", StringBytes(<<34, 113, 34, 32, 35>>)),
